@@ -9,16 +9,17 @@ UNITS_LOCAL = {"C17": [
                "plus every extent tuple over {1,2,3,1000,46341,65536,2^21,2^22,2^31-1,2^32,2^32+1,2^40} whose product fits 64 bits, "
                "with coordinates {0,1,mid,dim-2,dim-1} per axis and indices at the ends / middle / row and slice boundaries, "
                "against unsigned __int128 arithmetic; longProduct/longIndex/coordsOf/ActualArray3D::indexOf/numElements: the same "
-               "sets in vec3i (extents <= 2^31-1); for_each(lower,upper | box3i | size): every lower, upper in [-1,3]^3 "
-               "(visit list compared with the z,y,x-ordered cell list); ActualArray3D<int|float|uchar|double>: every extent in [1,4]^3, "
+               "sets in vec3i (extents <= 2^31-1); for_each(lower,upper | box3i | size): every lower, upper in [-1,3]^3 (thorough [-1,4]^3) "
+               "(visit list compared with the z,y,x-ordered cell list); ActualArray3D<int|float|uchar|double>: every extent in [1,4]^3 (thorough [1,5]^3, also for the adaptors), "
                "own and external memory, clear, two rounds of set at every cell with a whole-array frame check after each set, "
                "linear layout of the external buffer, get on every coordinate of [-2,dim+1]^3 = clamped cell; "
                "IndexShiftedArray3D: every shift in [-dim,2*dim)^3 x every cell; SubBoxArray3D: every clip box "
                "0<=lower<=upper<=dims x every cell of it; Array3DAccessor int->float and float->int; MultiSliceArray3D: 1-3 slices "
-               "of every extent in [1,4]^2 x {1,2}; each adaptor both over a filled ActualArray3D (value of the named cell) and over a "
+               "of every extent in [1,4]^2 (thorough [1,5]^2) x {1,2}; each adaptor both over a filled ActualArray3D (value of the named cell) and over a "
                "harness-implemented Array3D whose get() reports the coordinate it was asked for; getValueRange: every extent in "
                "[1,3]^3 (thorough [1,4]^3) x (8 corner patterns + a single maximum and a single minimum at every cell) x every "
                "non-empty region [begin,end), on ActualArray3D, a harness-implemented Array3D and a full SubBoxArray3D, against brute force. "
+               "Every case runs in its own forked child under ASan+UBSan (for_each cases in chunks of one lower corner). "
                "distinct = distinct per-case digests of all observed results"),
          assumptions=[
              "extent tuples whose product does not fit size_t are outside the domain ([0,total) must be representable)",
